@@ -1878,13 +1878,20 @@ def c05_timing(ctx):
     def one(kind, n):
         text = timing_inputs(n, kind)
         line = C.req("time", text, "rt_master" if kind.startswith("master-") else "rt_media")
-        o = C.run_many(C.IMPL, [line], 1)[0]
-        us = int(o.split(" ")[1]) if o.startswith("ok ") else None
+        us = None
+        for _ in range(1 if startup is not None else 3):          # without valgrind the wall clock decides: best of three
+            o = C.run_many(C.IMPL, [line], 1)[0]
+            t = int(o.split(" ")[1]) if o.startswith("ok ") else None
+            if t is not None:
+                us = t if us is None else min(us, t)
         ins = _instructions(line) if startup is not None else None
         return (n, len(text), us, None if ins is None else max(ins - startup, 1))
     jobs = [(k, n * (4 if g == "linear" else 1)) for k, g in kinds for n in (base, base * 2, base * 4)]
-    with ThreadPoolExecutor(max_workers=min(len(jobs), C.NCPU)) as ex:
-        res = list(ex.map(lambda kn: one(*kn), jobs))
+    if startup is not None:
+        with ThreadPoolExecutor(max_workers=min(len(jobs), C.NCPU)) as ex:
+            res = list(ex.map(lambda kn: one(*kn), jobs))
+    else:
+        res = [one(*kn) for kn in jobs]                            # one at a time: the measurements must not disturb each other
     for idx, (kind, growth) in enumerate(kinds):
         ts = res[idx * 3: idx * 3 + 3]
         out[kind] = [{"n": n, "bytes": b, "microseconds": t, "instructions": i} for n, b, t, i in ts]
@@ -1895,10 +1902,11 @@ def c05_timing(ctx):
             if ratio > limits[growth]:
                 viol.append("%s: 4x the input takes %.1fx the instructions (limit %.1f for %s growth)" % (kind, ratio, limits[growth], growth))
         else:
-            # no valgrind: wall clock with wide limits (noise, cache effects)
+            # no valgrind: wall clock, best of three, one run at a time, with wide limits (noise, cache effects); this mode can
+            # only notice gross blow-ups (a whole extra power of n)
             t1, t4 = ts[0][2], ts[2][2]
-            lim = {"linear": 12.0, "quadratic": 60.0}[growth]
-            if t1 and t4 and t1 > 2000:
+            lim = {"linear": 40.0, "quadratic": 150.0}[growth]
+            if t1 and t4 and t1 > 5000:
                 ratio = t4 / t1
                 out[kind].append({"time_ratio_4x": round(ratio, 2), "limit": lim, "unit": "wall clock (valgrind not available)"})
                 if ratio > lim:
